@@ -25,7 +25,9 @@ RULE = ("well-typed whole templates from the cross product of constructs: templa
         "BinaryEquals with base64 text, dates, IP ranges), 1-2 unmodelled resources (k mod 11: Lambda permission / WAF / prefix lists with "
         "string-valued non-IAM `Action`, policies as JSON text, CIDR lists), parameters of every kind (list-typed, value-less, NoEcho, "
         "SSM, supplied by the caller), Fn::If / AWS::NoValue on optional properties, CIDRs of prefix /32../4 and /128../8 in typed and "
-        "generic positions.  Every template runs parse -> resolve(extra) -> expand_actions() -> all policy queries in a sandboxed worker "
+        "generic positions; list-typed parameters also get numeric Defaults / supplied values.  Every template runs parse -> resolve(extra) -> "
+        "expand_actions() -> all policy queries in a sandboxed worker, then asks the SAME objects again (expand_actions, resolve, queries a second "
+        "time: the second round must not raise nor take > 20x the first + 2 s) "
         f"(wall {WALL_S:.0f} s, CPU {CPU_S} s, address space {AS_MB} MB); required: outcome ok, the runner says valid_template = true "
         "(op 501, the hypothesis of C05_no_error) and resolve_model = Ok (op 102).  Second stream: the resolver family's template "
         "generator (not necessarily well typed; compared only when valid_template holds).  Third: expand_actions() on plain trees "
